@@ -68,6 +68,89 @@ theorem unified_roundtrip_normNl_form_false :
   rw [h2] at h1
   simp only [Except.ok.injEq, Prod.mk.injEq] at h1
   exact absurd h1.1 (by decide)
+
+/-! ### a last line that ends in a bare CR -/
+
+/-- NEW (`mark_as_unterminated`: the `\ No newline at end of file` marker keeps the CR of the line before it).
+    **Unified round trip, exact, for a wider class of hunks** (`Unified.writableCR`: as `Hunk.writable`, but only a line
+    that ends in LF must not end in CR — `Unified.okLine` in place of `plainLine`): a line without newline whose content
+    ends in CR — the last line of a file that ends in a bare CR — is written `content LF` + marker, i.e. as a CR LF
+    terminated line, and read back with its CR: the marker says that there is no newline after the line, so the CR is not
+    part of one.  Before the change it came back without its CR (`c CR` as `c`), silently.
+    `unified_roundtrip` is the special case of hunks none of whose lines ends in CR. -/
+theorem unified_roundtrip_cr (hs : List Hunk) (hne : hs ≠ []) (hw : ∀ h ∈ hs, Unified.writableCR h = true)
+    (tail : List Line) (ht : tailOkUnified tail = true) (lineNo : Nat) :
+    ∃ par', parseUnifiedBody { s := { rest := splitLines (hs.flatMap writeHunkUnified) ++ tail }, lineNo := lineNo }
+        = .ok (hs, par') ∧ par'.s.rest = tail :=
+  Unified.unified_roundtrip_cr hs hne hw tail ht lineNo
+
+/-- every writable hunk is in the wider class -/
+theorem writableCR_of_writable (h : Hunk) (hw : h.writable = true) : Unified.writableCR h = true :=
+  Unified.writableCR_of_writable hw
+
+/-- the case by itself: a hunk whose last line is `content CR` without newline (whatever comes before it), in the text:
+    that line stands there as `op content` + CR LF, followed by the marker line — and the hunk is read back as it is -/
+theorem bare_cr_roundtrip (o nw : Range) (pre : List PatchLine) (op : UInt8) (content : Bytes)
+    (hw : Unified.writableCR ⟨o, nw, pre ++ [⟨op, ⟨content ++ [CR], .none⟩⟩]⟩ = true)
+    (tail : List Line) (ht : tailOkUnified tail = true) (lineNo : Nat) :
+    splitLines (writeHunkUnified ⟨o, nw, pre ++ [⟨op, ⟨content ++ [CR], .none⟩⟩]⟩) =
+        ⟨Unified.rangeText ⟨o, nw, pre ++ [⟨op, ⟨content ++ [CR], .none⟩⟩]⟩, .lf⟩ ::
+          (Unified.bodyLinesG Unified.wire pre ++ [⟨op :: content, .crlf⟩, Unified.markerLine]) ∧
+    ∃ par', parseUnifiedBody { s := { rest := splitLines (writeHunkUnified ⟨o, nw, pre ++ [⟨op, ⟨content ++ [CR], .none⟩⟩]⟩) ++ tail },
+                               lineNo := lineNo }
+        = .ok ([⟨o, nw, pre ++ [⟨op, ⟨content ++ [CR], .none⟩⟩]⟩], par') ∧ par'.s.rest = tail := by
+  have hsp := Unified.writableCR_spec _ hw
+  have htext := Unified.splitLines_hunksW [⟨o, nw, pre ++ [⟨op, ⟨content ++ [CR], .none⟩⟩]⟩]
+    (fun h hh => by simp only [List.mem_singleton] at hh; subst hh; exact hsp.1.1)
+    (fun h hh => by simp only [List.mem_singleton] at hh; subst hh; exact hsp.2)
+  simp only [List.flatMap_cons, List.flatMap_nil, List.append_nil] at htext
+  have hwire : Unified.wire ⟨content ++ [CR], .none⟩ = ⟨content, .crlf⟩ := by
+    simp only [Unified.wire, if_true, Unified.mkLine_cr]
+  have hbody : ∀ pre : List PatchLine, Unified.bodyLinesG Unified.wire (pre ++ [⟨op, ⟨content ++ [CR], .none⟩⟩]) =
+      Unified.bodyLinesG Unified.wire pre ++ [⟨op :: content, .crlf⟩, Unified.markerLine] := by
+    intro pre
+    induction pre with
+    | nil => simp [Unified.bodyLinesG, hwire]
+    | cons a r ih => simp only [List.cons_append, Unified.bodyLinesG, ih, List.append_assoc]
+  refine ⟨by rw [htext, Unified.hunkLinesG, hbody], ?_⟩
+  have := unified_roundtrip_cr [⟨o, nw, pre ++ [⟨op, ⟨content ++ [CR], .none⟩⟩]⟩] (by simp)
+    (fun h hh => by simp only [List.mem_singleton] at hh; subst hh; exact hw) tail ht lineNo
+  simpa using this
+
+/-- the hunk `@@ -1 +1 @@` / `-a CR` (no newline) / `+b`: the old last line of the file ends in a bare CR -/
+def bareCrHunk : Hunk := ⟨⟨1, 1⟩, ⟨1, 1⟩, [⟨MINUS, ⟨[97, CR], .none⟩⟩, ⟨PLUS, ⟨[98], .lf⟩⟩]⟩
+
+-- it is not `writable` (so `unified_roundtrip` said nothing about it) but it is in the wider class …
+example : bareCrHunk.writable = false := by decide
+example : Unified.writableCR bareCrHunk = true := by decide
+-- … so it is read back as it is (kernel-checked instance of the theorem), CR included …
+example : ∃ par', parseUnifiedBody { s := { rest := splitLines (writeHunkUnified bareCrHunk) }, lineNo := 1 }
+    = .ok ([bareCrHunk], par') := by
+  obtain ⟨par', h, _⟩ := unified_roundtrip_cr [bareCrHunk] (by simp)
+    (fun h hh => by simp only [List.mem_singleton] at hh; subst hh; decide) [] rfl 1
+  exact ⟨par', by simpa using h⟩
+-- … the same by running the model (compiled evaluation), with the text it is read from
+#guard writeHunkUnified bareCrHunk == str "@@ -1 +1 @@\n-a\r\n\\ No newline at end of file\n+b\n"
+#guard (match parseUnifiedBody { s := { rest := splitLines (writeHunkUnified bareCrHunk) } } with
+  | .ok (hs, _) => hs == [bareCrHunk]
+  | _ => false)
+
+/-- why a line that ends in LF must still not end in CR (`Unified.okLine`): the hunk with the line `a CR` + LF … -/
+def lfCrHunk : Hunk := ⟨⟨1, 1⟩, ⟨1, 1⟩, [⟨SP, ⟨[97, CR], .lf⟩⟩]⟩
+
+/-- … is written with the very bytes of the hunk with the line `a` + CR LF (`crlfHunk`), so it is read back as that one:
+    the reader (C14 `splitLines_lf_noCR`) never makes a line `c CR` + LF, and no statement of the round trip can include it -/
+theorem lf_line_ending_in_cr_not_faithful :
+    writeHunkUnified lfCrHunk = writeHunkUnified crlfHunk ∧ lfCrHunk ≠ crlfHunk ∧
+    ∃ par', parseUnifiedBody { s := { rest := splitLines (writeHunkUnified lfCrHunk) }, lineNo := 1 } = .ok ([crlfHunk], par') := by
+  have e : writeHunkUnified lfCrHunk = writeHunkUnified crlfHunk := by
+    simp [writeHunkUnified, lfCrHunk, crlfHunk, lineEnd]
+  refine ⟨e, by decide, ?_⟩
+  obtain ⟨par', h, _⟩ := unified_roundtrip [crlfHunk] (by simp)
+    (fun h hh => by simp only [List.mem_singleton] at hh; subst hh; decide) [] rfl 1
+  rw [e]
+  exact ⟨par', by simpa using h⟩
+
 /-- the text of emitted hunks, line by line: the range line, then every hunk line with the terminator it came with
     (`Unified.wireNl`: CR LF for a `.crlf` line, LF otherwise), a line without newline followed by the marker line -/
 theorem unified_text_lines (hs : List Hunk) (hw : ∀ h ∈ hs, h.writable = true) :
